@@ -233,6 +233,95 @@ theorem C01_functions_nary (t : Tree Cov) (h : ∀ c ∈ t.leaves, c.WF) (n : Na
   · rintro ⟨c, hc, hs⟩
     exact ⟨_, List.mem_map.mpr ⟨c, hc, rfl⟩, hs⟩
 
+/-! ### "never removes … from the report": monotonicity at the level of the result map -/
+
+/-- `a'` holds everything `a` holds: every line with a count at least as large, every branch line
+with a vector at least as long in which every taken slot is still taken, every function with the
+same start line and an executed flag that was not cleared. -/
+structure Below (a a' : Cov) : Prop where
+  lines : ∀ l v, get? a.lines l = some v → ∃ v', get? a'.lines l = some v' ∧ v ≤ v'
+  branches : ∀ l u, get? a.branches l = some u → ∃ u', get? a'.branches l = some u' ∧
+    u.length ≤ u'.length ∧ ∀ i, u.getD i false = true → u'.getD i false = true
+  functions : ∀ n f, get? a.functions n = some f → ∃ f', get? a'.functions n = some f' ∧
+    f'.start = f.start ∧ (f.executed = true → f'.executed = true)
+
+theorem Below.refl (a : Cov) : Below a a :=
+  ⟨fun _ v h => ⟨v, h, Nat.le_refl _⟩, fun _ u h => ⟨u, h, Nat.le_refl _, fun _ h => h⟩,
+   fun _ f h => ⟨f, h, rfl, fun h => h⟩⟩
+
+theorem Below.trans {a b c : Cov} (h₁ : Below a b) (h₂ : Below b c) : Below a c := by
+  refine ⟨fun l v h => ?_, fun l u h => ?_, fun n f h => ?_⟩
+  · obtain ⟨v', e', le'⟩ := h₁.lines l v h
+    obtain ⟨v'', e'', le''⟩ := h₂.lines l v' e'
+    exact ⟨v'', e'', Nat.le_trans le' le''⟩
+  · obtain ⟨u', e', le', t'⟩ := h₁.branches l u h
+    obtain ⟨u'', e'', le'', t''⟩ := h₂.branches l u' e'
+    exact ⟨u'', e'', Nat.le_trans le' le'', fun i hi => t'' i (t' i hi)⟩
+  · obtain ⟨f', e', s', x'⟩ := h₁.functions n f h
+    obtain ⟨f'', e'', s'', x''⟩ := h₂.functions n f' e'
+    exact ⟨f'', e'', by rw [s'', s'], fun hx => x'' (x' hx)⟩
+
+/-- one `merge` only adds (the three `C01_monotone_*` statements together) -/
+theorem C01_monotone_merge (a b : Cov) (ha : a.WF) (hb : b.WF) : Below a (merge a b) :=
+  ⟨fun l v h => C01_monotone_lines a b ha hb l v h,
+   fun l u h => C01_monotone_branches a b hb l u h,
+   fun n f h => C01_monotone_functions a b hb n f h⟩
+
+/-- **The report only grows.** Whatever batch `add_results` is given – any number of records, for
+any files, under any spelling of their names (`canon` arbitrary), in any order – every file that
+was in the result map is still there afterwards, and its record holds everything it held before:
+no line removed or lowered, no branch vector shortened, no taken branch cleared, no function
+removed, no executed flag cleared, no start line changed. -/
+theorem C01_report_monotone (canon : Key → Key) (m : List (Key × Cov)) (batch : List (Key × Cov))
+    (hm : ∀ kc ∈ m, kc.2.WF) (hb : ∀ kc ∈ batch, kc.2.WF) (k : Key) (a : Cov)
+    (h : get? m k = some a) :
+    ∃ a', get? (addResults canon m batch) k = some a' ∧ Below a a' := by
+  rw [get?_addResults, h]
+  have ha : a.WF := hm (k, a) (mem_of_get? h)
+  have hcs : ∀ c ∈ (batch.filter fun kc => canon kc.1 = k).map (·.2), c.WF := by
+    intro c hc
+    simp only [List.mem_map, List.mem_filter] at hc
+    obtain ⟨kc, ⟨hkc, _⟩, rfl⟩ := hc
+    exact hb kc hkc
+  generalize (batch.filter fun kc => canon kc.1 = k).map (·.2) = cs at hcs
+  suffices H : ∀ (cs : List Cov) (x : Cov), x.WF → (∀ c ∈ cs, c.WF) →
+      ∃ a', foldInto (some x) cs = some a' ∧ Below x a' from H cs a ha hcs
+  intro cs
+  induction cs with
+  | nil => intro x _ _; exact ⟨x, rfl, Below.refl x⟩
+  | cons c cs ih =>
+    intro x hx hcs
+    have hc : c.WF := hcs c (by simp)
+    obtain ⟨a', e, hb'⟩ := ih (merge x c) (merge_wf x c hx hc) fun c' hc' => hcs c' (List.mem_cons_of_mem _ hc')
+    exact ⟨a', e, (C01_monotone_merge x c hx hc).trans hb'⟩
+
+/-- … and over any number of batches: the maps of a run form a chain (`reportOf` of a longer
+prefix of the merge order holds everything the shorter prefix's map held). -/
+theorem C01_report_monotone_batches (canon : Key → Key) (m : List (Key × Cov))
+    (batches : List (List (Key × Cov))) (hm : ∀ kc ∈ m, kc.2.WF)
+    (hb : ∀ b ∈ batches, ∀ kc ∈ b, kc.2.WF) (k : Key) (a : Cov) (h : get? m k = some a) :
+    ∃ a', get? (batches.foldl (addResults canon) m) k = some a' ∧ Below a a' := by
+  have e : ∀ m : List (Key × Cov),
+      batches.foldl (addResults canon) m = addResults canon m batches.flatten := by
+    induction batches with
+    | nil => intro m; simp [addResults]
+    | cons b bs ih =>
+      intro m
+      rw [List.foldl_cons, ih (fun b' hb' => hb b' (List.mem_cons_of_mem _ hb'))]
+      simp [addResults, List.foldl_append]
+  rw [e]
+  refine C01_report_monotone canon m _ hm ?_ k a h
+  intro kc hkc
+  simp only [List.mem_flatten] at hkc
+  obtain ⟨b, hbm, hkb⟩ := hkc
+  exact hb b hbm kc hkb
+
+/-- non-vacuity: `exA` is in the map under key `[1]`; a batch that names the same file under two
+spellings (both canonicalise to `[1]`) and another file leaves a record above `exA` -/
+example : (get? (addResults (fun k => if k = [2] then [1] else k) [([1], ⟨[(1, 5)], [], []⟩)]
+      [([2], ⟨[(1, 2)], [(1, [true])], []⟩), ([1], ⟨[(1, 1)], [], []⟩), ([3], ⟨[], [], []⟩)]) [1]).map
+        (fun a' => (get? a'.lines 1, get? a'.branches 1)) = some (some 8, some [true]) := by decide
+
 /-! Non-vacuity: concrete records that satisfy the hypotheses and exercise saturation, a shorter
 right-hand branch vector and a start-line disagreement. -/
 def exA : Cov := { lines := [(1, 5), (2, U64MAX)], branches := [(1, [true, false])],
